@@ -84,6 +84,10 @@ type C02Plan struct {
 	// succeeded (want is built from those).
 	Reject int  `json:"reject,omitempty"`
 	Retry  bool `json:"retry,omitempty"`
+	// RejectOffset > 0: it is not the first but a later call of that Write
+	// that is refused: the record is torn, so only the byte-count clause is
+	// checked for that Write (the count must equal what the medium received).
+	RejectOffset int `json:"reject_offset,omitempty"`
 }
 
 const fieldChars = "abcXYZ019_.:|>@+#;=-/ *~!\"'"
@@ -385,6 +389,9 @@ func genC02(r *simrt.RNG) *Case {
 	} else if n := len(pl.Beds) + len(pl.Items); n > 0 && r.Intn(6) == 0 {
 		pl.Reject = 1 + r.Intn(n)
 		pl.Retry = r.Bool()
+		if r.Intn(3) == 0 {
+			pl.RejectOffset = r.Range(1, 6) // a later call of the same Write
+		}
 	}
 	return &Case{Prop: "C02", Kind: pl.Format, Plan: marshalPlan(pl)}
 }
@@ -409,7 +416,7 @@ func writeFeatsTo(pl *C02Plan, sink *simio.Sink) (text []byte, want []string, wr
 		for i := 0; i < len(pl.Beds); i++ {
 			b := pl.Beds[i]
 			if i == pl.Reject-1 && !sink.Rejected {
-				sink.RejectCall = sink.NCalls + 1
+				sink.RejectCall = sink.NCalls + 1 + pl.RejectOffset
 			}
 			before := len(sink.Buf)
 			n, err := w.Write(b.build(pl.BedType))
@@ -447,11 +454,14 @@ func writeFeatsTo(pl *C02Plan, sink *simio.Sink) (text []byte, want []string, wr
 	for i := 0; i < len(pl.Items); i++ {
 		it := pl.Items[i]
 		if i == pl.Reject-1 && !sink.Rejected {
-			sink.RejectCall = sink.NCalls + 1
+			sink.RejectCall = sink.NCalls + 1 + pl.RejectOffset
 		}
 		before := len(sink.Buf)
 		f := it.build()
 		n, err := w.Write(f)
+		if pl.RejectOffset > 0 && sink.Rejected && n != len(sink.Buf)-before {
+			return nil, nil, 0, viol(site+"-bytecount-on-failure", "item %d (%s): Write returned n=%d but %d bytes were emitted (the medium refused call %d of this Write once; Write returned %v)", i, it.Kind, n, len(sink.Buf)-before, pl.RejectOffset+1, err)
+		}
 		if err != nil && sink.Rejected && !sink.Failed && n == len(sink.Buf)-before {
 			if len(sink.Buf) != before {
 				return sink.Buf, nil, sink.NCalls, nil
@@ -605,7 +615,7 @@ func runC02(t *testing.T, c *Case, o RunOpts) *Result {
 			hdr = len("##gff-version 2\n") // written by NewWriter, not by a Write call
 		}
 		if len(text) > hdr {
-			sink := &simio.Sink{Faulty: true, FailAt: hdr + (pl.WriteFault-1)%(len(text)-hdr)}
+			sink := &simio.Sink{Faulty: true, FailAt: hdr + (pl.WriteFault-1)%(len(text)-hdr), FailFull: pl.WriteFault%3 == 0}
 			res.Fired = append(res.Fired, simrt.IORecord{Kind: "write-fails-at-byte"})
 			if pv := guard(func() { _, _, _, v = writeFeatsTo(&pl, sink) }); pv != nil {
 				v = pv
